@@ -20,7 +20,8 @@
 (* edgesync/receive.go).                                                   *)
 (* Alphabet: "/" separator, "." dot, "0" NUL byte, "b" backslash,          *)
 (* "a" any other character (the driver substitutes several concrete        *)
-(* strings, including multi-byte unicode), "_" produced by the sanitiser.  *)
+(* strings, including multi-byte unicode), "_" produced by the sanitiser,  *)
+(* "r" the root directory's base name (see below).                         *)
 (* The base directory is Base (two abstract segments: parent, root).       *)
 (***************************************************************************)
 EXTENDS Naturals, Sequences, FiniteSets, TLC, Json
@@ -31,11 +32,19 @@ CONSTANTS MaxLen,       \* maximal key length in characters
           Emit
 
 Chars == {"/", ".", "0", "a", "b"}
-Base  == << <<"P">>, <<"R">> >>          \* /P/R : R is the configured root, P its parent
+\* "r" is one more token: the root directory's own base name, as a string.  A segment "r" is the root's name, a
+\* segment that merely starts with "r" ("ra", "r.", "r0a" ...) is a SIBLING whose name has the root's name as a
+\* string prefix (data-backup next to data).  Containment is decided per segment, never per character.
+Base  == << <<"P">>, <<"r">> >>          \* /P/<root> : P is the parent of the configured root
 
 RECURSIVE KeysOfLen(_)
 KeysOfLen(n) == IF n = 0 THEN {<<>>} ELSE {Append(k, c) : k \in KeysOfLen(n-1), c \in Chars}
-Keys == UNION {KeysOfLen(n) : n \in 0..MaxLen}
+BaseKeys == UNION {KeysOfLen(n) : n \in 0..MaxLen}
+InsertAt(k, i, c) == SubSeq(k, 1, i-1) \o <<c>> \o SubSeq(k, i, Len(k))
+\* keys of <= MaxLen tokens with the root-name token once, at the start of a segment
+RKeys == UNION { { InsertAt(k, i, "r") : i \in {j \in 1..(Len(k)+1) : j = 1 \/ k[j-1] = "/"} }
+                 : k \in UNION {KeysOfLen(n) : n \in 0..(MaxLen-1)} }
+Keys == BaseKeys \cup RKeys
 
 VARIABLES key,      \* the raw key
           s,        \* the string as the pipeline transforms it
@@ -140,6 +149,8 @@ ResolvedInside == Accepted => Under(abs)
 StagingInside  == ObjAccepted => (PartDirInside /\ WriteDirInside)
 \* (3) a key the cluster manifest validator lets through never stages outside the root (idem)
 ManifestStagingInside == (ObjAccepted /\ ManifestOK) => PartDirInside
+\* a name that only starts with the root's name is not the root: such a sibling is never accepted
+SiblingRejected == (Accepted /\ Len(abs) >= 2) => abs[2] = <<"r">>
 \* edge-sync keys are never root aliases (the .parquet suffix is a real last segment)
 SyncNeverAlias == (Accepted /\ SyncOK) => ~RootAlias
 
